@@ -201,6 +201,16 @@ func execC09(e *Env, pp any) {
 			}
 			continue
 		}
+		if c.Kind == KCStream && len(r.CGot) >= 1 {
+			// what the generated CloseAndRecv reports is the first RecvMsg's result: handing
+			// the reply over with a nil error is reporting success
+			histMu.Lock()
+			comp := complete[id]
+			histMu.Unlock()
+			if !comp {
+				e.Violate(prop, "fabricated-success", "cstream.first-recv", "call %d: the reply of the client-streaming call was handed to the caller with a nil error (CloseAndRecv would report success) although the connection failed before the call's final status arrived", id)
+			}
+		}
 		if ok && err == nil && (c.Kind == KUnary || r.CFinalSet) {
 			// success: only with the complete response handed over before the failure
 			histMu.Lock()
@@ -808,6 +818,12 @@ func execC11(e *Env, pp any) {
 			}
 			if c.HStatus == nil {
 				e.Violate(prop, "failed", site, "%s call %d failed with %v after another stream was abandoned", who, id, err)
+				// C05: a call whose own context is live and which has no deadline cannot end
+				// Canceled or DeadlineExceeded of its own: that is the end of the abandoned call
+				if st, isSt := status.FromError(err); c.Timeout == 0 && r.Ctx != nil && r.Ctx.Err() == nil &&
+					((isSt && (st.Code() == codes.Canceled || st.Code() == codes.DeadlineExceeded)) || errors.Is(err, context.Canceled) || errors.Is(err, context.DeadlineExceeded)) {
+					e.Violate("C05", "foreign-status", site, "%s call %d, whose own context is live and has no deadline, ended with %v: the status of the stream that was abandoned next to it", who, id, err)
+				}
 			}
 		}
 	}
@@ -1278,7 +1294,7 @@ func init() {
 		}, Faulty: true, FaultKinds: []string{"link.readFail", "link.writeFail"}})
 	Register(&Family{Name: "c10.shutdown", ShrinkKeys: []string{"calls", "pos"}, Props: []string{"C10"}, New: func() any { return &C10Params{} }, Gen: genC10, Exec: execC10,
 		Faulty: true, FaultKinds: []string{"link.readFail", "link.writeFail", "server.stop", "link.stall"}})
-	Register(&Family{Name: "c11.abandon", ShrinkKeys: []string{"others"}, Props: []string{"C11"}, New: func() any { return &C11Params{} }, Gen: genC11, Exec: execC11,
+	Register(&Family{Name: "c11.abandon", ShrinkKeys: []string{"others"}, Props: []string{"C11", "C05"}, New: func() any { return &C11Params{} }, Gen: genC11, Exec: execC11,
 		Faulty: true, FaultKinds: []string{"handler.abandon", "ctx.cancel"}})
 	Register(&Family{Name: "c14.history", ShrinkKeys: []string{"n", "inflight"}, Props: []string{"C14"}, New: func() any { return &C14Params{} }, Gen: genC14, Exec: execC14,
 		Faulty: true, FaultKinds: []string{"ctx.cancel", "ctx.deadline", "open.writeFail", "handler.abandon"}})
